@@ -60,6 +60,8 @@ def real_counts(name, cfg, profile):
     if name == 'ANSS16.Scheme3':
         out = {'HT_S': len(profile)}
         for n in profile:
+            if n == 0:
+                continue              # an empty posting list has no entry in any level table
             p = math.ceil(math.log2(n))
             out['HT_L%d' % p] = out.get('HT_L%d' % p, 0) + 1
         return out
@@ -78,6 +80,8 @@ def a_profiles(tier):
         for p in sorted(domains.partitions(N), key=lambda p: (len(p), p)):
             if 2 <= len(p) <= 4:
                 out.append(p)
+    # keywords with an EMPTY posting list (refused at setup by some schemes - then there is nothing to compare)
+    out += [[0, 1], [1, 0], [0, 2, 1], [2, 0, 1], [0, 0, 3]]
     return out
 
 
